@@ -214,6 +214,7 @@ func (c02) Run(c *engine.Case) *engine.Result {
 		want, defined := refSize(c.Family, c.Key)
 		var outs []string
 		for _, b := range real.Backends {
+			engine.Heartbeat()
 			o := real.Run(b, h, c.Src, real.EnvSpec{Rep: "raw"})
 			res.Execs++
 			bo := &BackendObs{Obs: o}
